@@ -1,4 +1,4 @@
-import Pymeeus.Refine.SunEvents
+import Pymeeus.Refine.SeasonModel
 import Pymeeus.Spec.SunEvents
 /-
 C14 — Seasons, equation of time and sunrise/sunset agree with the solar position.
@@ -75,15 +75,7 @@ theorem season_bad_target (mk : ℝ → PyRes ℝ) (sunLon : ℝ → ℝ) (fuel 
     from year 1000, evaluated at Y = year/1000 resp. (year − 2000)/1000; the season index picks the row. -/
 theorem season_polynomial (year : Int) (k : Fin 4) (hy : -1000 ≤ year ∧ year ≤ 3000) :
     season_jde0 year (k : Int) = .ok (Spec.SunEvents.jde0 year k) := by
-  unfold season_jde0 Spec.SunEvents.jde0 Spec.SunEvents.poly4
-  by_cases h1 : year < 1000
-  · have h1' : year ≥ -1000 ∧ year < 1000 := ⟨hy.1, h1⟩
-    simp only [h1', and_self, if_true]
-    fin_cases k <;> simp [Spec.SunEvents.table27A, ofInt] <;> norm_num <;> ring
-  · have h1' : ¬ (year ≥ -1000 ∧ year < 1000) := by omega
-    have h2 : year ≥ 1000 ∧ year ≤ 3000 := by omega
-    simp only [h2, and_self, if_true, if_false, h1]
-    fin_cases k <;> simp [Spec.SunEvents.table27B, ofInt] <;> norm_num <;> ring
+  exact season_jde0_eq_spec year k hy
 
 /-- Loop post-condition (partial correctness, ANY solar-longitude function, ANY Epoch constructor):
     if `get_equinox_solstice` returns an instant `e`, there is an instant `eLast` — the last one at
@@ -136,25 +128,8 @@ theorem season_post_ideal (sunLon : ℝ → ℝ) (fuel : Nat) (year : Int) (targ
   simp only [Except.ok.injEq] at h1 h2
   have he : e = eLast := by rw [← h2, ← h1]; ring
   subst he
-  have hc : |58 * Real.sin (season_arg k (sunLon e) * (Real.pi / 180))| ≤ 0.0000025 := by
-    have : season_corr k (sunLon e) = 58 * Real.sin (season_arg k (sunLon e) * (Real.pi / 180)) := by
-      unfold season_corr psin pradians; norm_num
-    rw [← this]; exact h3
-  refine ⟨k, hk, hc, ?_⟩
-  have hs : |Real.sin (season_arg k (sunLon e) * (Real.pi / 180))| ≤ 0.0000025 / 58 := by
-    rw [abs_mul] at hc
-    rw [le_div_iff₀ (by norm_num)]
-    have : |(58 : ℝ)| = 58 := abs_of_pos (by norm_num)
-    rw [this] at hc; linarith
-  obtain ⟨m, hm⟩ := near_int_mul_pi_of_abs_sin_le hs
-  obtain ⟨n, hn⟩ := season_arg_congr k (sunLon e)
-  refine ⟨m + 2 * n, ?_⟩
-  have hpi : 0 < Real.pi := Real.pi_pos
-  have key : ((k : ℝ) * 90 - sunLon e) - 180 * ((m + 2 * n : ℤ) : ℝ)
-      = (season_arg k (sunLon e) * (Real.pi / 180) - m * Real.pi) * (180 / Real.pi) := by
-    rw [hn]; push_cast; field_simp; ring
-  rw [key, abs_mul, abs_of_pos (by positivity : (0 : ℝ) < 180 / Real.pi)]
-  exact mul_le_mul_of_nonneg_right hm (by positivity)
+  obtain ⟨hc, hn⟩ := season_angle_of_corr k (sunLon e) h3
+  exact ⟨k, hk, hc, hn⟩
 
 /-- The same in plain degrees: at the returned instant the solar longitude is within 2.5·10⁻⁶ degree
     of `k·90° + n·180°` for some integer `n` (the property's tolerance is 10⁻⁵ degree; that `n` is
@@ -164,6 +139,54 @@ theorem season_post_degrees (sunLon : ℝ → ℝ) (fuel : Nat) (year : Int) (ta
     ∃ k : Int, season_index target = .ok k ∧ ∃ n : ℤ, |((k : ℝ) * 90 - sunLon e) - 180 * n| ≤ 0.0000025 := by
   obtain ⟨k, hk, _, n, hn⟩ := season_post_ideal sunLon fuel year target e h
   exact ⟨k, hk, n, le_trans hn season_angle_bound⟩
+
+/-- The loop post-condition for the model's OWN constructor `mkEpoch` — `Epoch(jde)` as coded: store,
+    `get_full_date()`, `_compute_jde()` — with no hypothesis on it: over ℝ that constructor is the
+    identity on `jde ≥ 0` (`mkEpoch_exact`, the real-number form of C02's `set_jde_exact`), Meeus'
+    approximate instants are ≥ 1 350 000 and a pass moves the instant by at most 58 days, so for up to
+    20 000 passes (the implementation makes 3–4) every instant visited is one the constructor keeps.
+    Conclusion as in `season_post_ideal` / `season_post_degrees`: the returned instant `e` is the last
+    one the solar longitude was evaluated at and that longitude is within 2.5·10⁻⁶ degree of
+    `k·90°` or of its antipode, for ANY solar-longitude function. -/
+theorem season_post_model (sunLon : ℝ → ℝ) (fuel : Nat) (hf : fuel ≤ 20000) (year : Int) (target : String)
+    (e : ℝ) (h : get_equinox_solstice mkEpoch sunLon fuel year target = .ok (some e)) :
+    ∃ k : Int, season_index target = .ok k ∧
+      |58 * Real.sin (season_arg k (sunLon e) * (Real.pi / 180))| ≤ 0.0000025 ∧
+      ∃ n : ℤ, |((k : ℝ) * 90 - sunLon e) - 180 * n| ≤ 0.0000025 := by
+  unfold get_equinox_solstice at h
+  cases hk : season_index target with
+  | error err => rw [hk] at h; simp at h
+  | ok k =>
+    rw [hk] at h; simp only at h
+    cases hj : season_jde0 year k with
+    | error err => rw [hj] at h; simp at h
+    | ok j =>
+      rw [hj] at h; simp only at h
+      have hjge := season_jde0_ge (season_index_range hk) hj
+      rw [Pymeeus.Refine.EpochR.mkEpoch_exact j (by linarith)] at h
+      simp only at h
+      cases hl : loopFuel (season_step mkEpoch sunLon k) fuel j with
+      | none => rw [hl] at h; simp at h
+      | some r =>
+        rw [hl] at h
+        cases r with
+        | error err => simp at h
+        | ok e1 =>
+          simp only [Except.ok.injEq, Option.some.injEq] at h
+          subst h
+          have hfr : (fuel : ℝ) ≤ 20000 := by exact_mod_cast hf
+          obtain ⟨s', hs58, hs'⟩ := season_loop_model sunLon k _ fuel j (by linarith) hl
+          obtain ⟨e', h1, h2, h3⟩ := season_step_exit hs'
+          have hcs := abs_le.mp (season_corr_abs_le k (sunLon s'))
+          rw [Pymeeus.Refine.EpochR.mkEpoch_exact _ (by linarith)] at h1
+          simp only [Except.ok.injEq] at h1
+          subst h1
+          rw [Pymeeus.Refine.EpochR.mkEpoch_exact _ (by linarith)] at h2
+          simp only [Except.ok.injEq] at h2
+          have he : e1 = s' := by rw [← h2]; ring
+          subst he
+          obtain ⟨hc, n, hn⟩ := season_angle_of_corr k (sunLon e1) h3
+          exact ⟨k, rfl, hc, n, le_trans hn season_angle_bound⟩
 
 /-- Non-vacuity of the loop post-condition: with a Sun standing at longitude 0° the spring search of
     year 2000 exits in its first pass (`corr = 0`) and returns the approximate instant itself. -/
